@@ -98,4 +98,4 @@ print(json.dumps({'out': o.getvalue(), 'salt': fa.salt, 'records': recs}))
     ctx.evaluations = len(cases) * (len(seeds) + 3) + 2
     ctx.distinct_nontrivial = nt
     ctx.search_stats = {"cases": len(cases), "hash_seeds": [0] + seeds, "after_unrelated_anonymizers": bool(ip), "cases_changed_by_anonymization": nt}
-    ctx.samples = [{"line": cases[0][11], "impl": textgen.outlines(i0[0])[0]}]
+    ctx.samples = [textgen.sample(cases[0], i0[0], 0)]
